@@ -82,4 +82,30 @@ theorem Corr.dump {b : Nat} {h h' : Heap α} (e : Ext h h') : ∀ k d dd o c, Co
         | atom a => rfl
         | ref n => exact dumpN_ext e k dd n ((w5 en hen).2 _ hvp n rfl)
 
+/-- every group of the copy's token tree has the name-table entries of some group of the original's token tree -/
+theorem Corr.dict_shared_rev {b : Nat} {h h' : Heap α} {c x' : Nat} (hr : TReach h' c x') :
+    ∀ d o, Corr b h h' d o c → ∃ x, TReach h o x ∧
+      h'.dicts (h'.objs x').dct = h.dicts (h.objs x).dct := by
+  induction hr with
+  | refl c => intro d o hc; exact ⟨o, TReach.refl o, hc.node.2.2.2.1⟩
+  | step hm _ ih =>
+    intro d o hc
+    cases d with
+    | zero => obtain ⟨_, _, hf⟩ := RelL.mem_right _ _ _ hc.2 hm; exact hf.elim
+    | succ d =>
+      obtain ⟨n, hn, hcn⟩ := RelL.mem_right _ _ _ hc.2 hm
+      obtain ⟨x, r1, r2⟩ := ih d n hcn
+      exact ⟨x, TReach.step hn r1, r2⟩
+
+/-- the occurrence lists of everything token-reachable from an `FD` object are allocated -/
+theorem FD.entries {b : Nat} {h : Heap α} {o x : Nat} (hr : TReach h o x) :
+    ∀ d, FD b h d o → ∀ e ∈ h.dicts (h.objs x).dct, e.2 < b := by
+  induction hr with
+  | refl o => intro d hd; cases d with
+    | zero => exact hd.elim
+    | succ d => exact fun e he => (hd.2.2.2.2 e he).1
+  | step hm _ ih => intro d hd; cases d with
+    | zero => exact hd.elim
+    | succ d => exact ih d (hd.2.2.2.1 _ hm)
+
 end PP.PRHeap
